@@ -18,7 +18,7 @@ import xonsh.history.json as hj
 import xonsh.lib.lazyjson as xlj
 from xonsh.built_ins import XSH
 
-from vf.api import Obligation, Skip, concretely, viol
+from vf.api import Gappy, Obligation, Skip, concretely, viol
 
 STUBS = [
     "open / os.fdopen / os.replace / os.unlink / os.remove / os.write / os.close / tempfile.mkstemp / os.path.* as seen from "
@@ -160,7 +160,7 @@ class ModelFS:
         del self.names[p]
 
 
-class _P:
+class _P(Gappy):
     def __init__(self, fs):
         self.fs = fs
 
@@ -179,11 +179,12 @@ class _P:
         return 1000.0
 
 
-class _OS:
+class _OS(Gappy):
     def __init__(self, fs):
         self.fs = fs
         self.path = _P(fs)
         self.replace = fs.replace
+        self.rename = fs.replace  # POSIX rename == replace
         self.unlink = fs.unlink
         self.remove = fs.unlink
         self.fdopen = fs.fdopen
@@ -198,7 +199,7 @@ class _OS:
         pass
 
 
-class _Tempfile:
+class _Tempfile(Gappy):
     def __init__(self, fs):
         self.mkstemp = fs.mkstemp
 
